@@ -2,6 +2,7 @@ package sym
 
 import (
 	"fmt"
+	"os"
 	"math/big"
 	"sort"
 	"strings"
@@ -164,7 +165,11 @@ func (x *Explorer) check(extra []*smt.Term, wantModel bool) (smt.Result, smt.Mod
 			vars = append(vars, x.Vars[n])
 		}
 	}
+	t0 := time.Now()
 	res, m, err := x.S.Check(x.C, as, vars)
+	if branchLog {
+		fmt.Fprintf(os.Stderr, "QUERY %v %.2fs pc=%d\n", res, time.Since(t0).Seconds(), len(x.In.pc))
+	}
 	if err != nil || res == smt.Unknown {
 		// retry once on a fresh cross-check solver if available
 		if x.S2 != nil {
@@ -236,6 +241,9 @@ func (in *Interp) branch(c *smt.Term, what string) bool {
 		}
 		in.addPC(nc)
 		return false
+	}
+	if branchLog {
+		fmt.Fprintf(os.Stderr, "BRANCH %s\n", what)
 	}
 	rt, _ := x.check([]*smt.Term{c}, false)
 	if rt == smt.Unsat {
@@ -484,3 +492,5 @@ func (x *Explorer) runOne(entry func()) (stop bool) {
 }
 
 func hexOf(v *big.Int) string { return v.Text(16) }
+
+var branchLog = os.Getenv("VERIF_BRANCHLOG") != ""
